@@ -14,6 +14,7 @@ From Coq Require Import List.
 Import ListNotations.
 Require Import ZV.Model.GenShape ZV.Proofs.GenShapeProofs ZV.Model.Lexer.
 Require ZV.Model.Reader ZV.Properties.C13.
+Require Import ZV.Model.CallCheck ZV.Proofs.CallCheckProofs.
 
 Theorem gen_total : forall omacro oinfix ofile fuel xs s,
   load omacro oinfix ofile fuel xs <> RCrash s.
@@ -42,6 +43,21 @@ Theorem read_total : forall strict cfix fuel p text,
   fst (ZV.Model.Reader.observe (ZV.Model.Reader.parse_after strict cfix fuel p text)) <> ZV.Model.Reader.StCrash.
 Proof. exact ZV.Properties.C13.read_total. Qed.
 Print Assumptions read_total.
+
+(* check.go FunctionCallNameTypeCheck + the arity test of CallFunction (VM level, outside any recover):
+   for every declared parameter list with distinct names and every list of evaluated actual arguments
+   (keyword symbols and values in any order, repeated, unknown, too few, too many) no unfilled slot of
+   finalArgs is ever dereferenced *)
+Theorem call_check_total : forall ps args, NoDup (map fst ps) -> call_check ps args <> CCrashNil.
+Proof. exact call_check_no_crash. Qed.
+Print Assumptions call_check_total.
+
+Example ex_call_by_name_repeated :      (* (t a:1 a:2) with parameters a b: an error *)
+  call_check [(1, TInt); (2, TStr)] [ANamed 1; AVal TInt; ANamed 1; AVal TInt] = CErrCall.
+Proof. vm_compute. reflexivity. Qed.
+Example ex_call_by_name_ok :
+  call_check [(1, TInt); (2, TStr)] [ANamed 2; AVal TStr; ANamed 1; AVal TInt] = COkCall.
+Proof. vm_compute. reflexivity. Qed.
 
 (* non-vacuity: ordinary forms generate, malformed ones are errors, not crashes *)
 Example ex_include_improper : load_deferred 10 [w_include] = RErr.      (* (include ([] \ 1)) *)
